@@ -162,7 +162,7 @@ EXPORT errno_t _strncat_s_chk(char *restrict dest, rsize_t dmax,
         BND_CHK_PTR_BOUNDS(src, slen);
     } else if (unlikely(slen > srcbos)) {
         return handle_str_bos_overflow("strncat_s: slen exceeds src",
-                                       dest, destbos);
+                                       dest, dmax);
     }
 
     /* hold base of dest in case src was not copied */
